@@ -211,6 +211,12 @@ fn designed() -> Vec<(UniverseSpec, bool)> {
         (UniverseSpec { prefix: 4, a: BranchSpec { commits: s(&[&["T1"], &["T2", "Ta"], &[], &[]]), uncle_at: None }, b: BranchSpec { commits: s(&[&[], &["T1", "T2", "Ta"], &[]]), uncle_at: Some(1) } }, true),
         // nothing on A, everything on B; then A overtakes again with empty blocks
         (UniverseSpec { prefix: 2, a: BranchSpec { commits: s(&[&[], &[], &[], &[]]), uncle_at: None }, b: BranchSpec { commits: s(&[&["T1", "T2x", "Tb"], &[], &[]]), uncle_at: None } }, false),
+        // a block of B commits a transaction the node has never verified next to one it has already
+        // verified on A (per-transaction records of one block come partly from the verification cache):
+        // the fresh one first ...
+        (UniverseSpec { prefix: 2, a: BranchSpec { commits: s(&[&["Ta"], &[], &[], &[]]), uncle_at: None }, b: BranchSpec { commits: s(&[&["T1", "Ta"], &["T2"], &[]]), uncle_at: None } }, false),
+        // ... and the known one first, the fresh ones after it
+        (UniverseSpec { prefix: 2, a: BranchSpec { commits: s(&[&["T1"], &[], &[], &[]]), uncle_at: None }, b: BranchSpec { commits: s(&[&["T1", "T2x", "Ta"], &[], &[]]), uncle_at: None } }, false),
     ]
 }
 
